@@ -502,7 +502,7 @@ func (w *World) handedOver(owner, field string) (bool, string) {
 }
 
 func checkC07(w *World, r *Report) {
-	r.Explanation = "Structural clause of C07: (R-1) every in-memory controller field that is written while a block executes is one of — block-scoped (a store to it lies on every path to a normal return of a BeginBlock handler), persisted (on the start-up path — constructor, and Info for the application — it receives a value data-dependent on a persistent read: meta store getters, tm-db Get, ledger reads; loads of other controller fields count only if those fields are themselves persisted on that path), or handed over (nil at every Commit return); (R-2) what Commit makes durable is what start-up loads: each persisted field's Commit-time store is paired with a durable write of the same value, and the codecs of the persisted records (BlockContext JSON, GovParams proto) cover every field symmetrically; (R-3) write-back discipline (C01 D-6): an overlay object mutated in place is marked in its overlay on every success path, so the overlay cache — which a restart empties — never holds state the tree lacks; (R-4) nil-ness that block execution tests survives the store: for every slice field of a ledger item that a consensus function compares with nil, the item's decoder hands the wire field on as it is (absent = nil), not a copy. R-2 asks for the installing store of GovCtrler.Commit on every successful path on which parameters were handed over."
+	r.Explanation = "Structural clause of C07: (R-1) every in-memory controller field that is written while a block executes is one of — block-scoped (a store to it lies on every path to a normal return of a BeginBlock handler), persisted (on the start-up path — constructor, and Info for the application — it receives a value data-dependent on a persistent read: meta store getters, tm-db Get, ledger reads; loads of other controller fields count only if those fields are themselves persisted on that path), or handed over (nil at every Commit return); (R-2) what Commit makes durable is what start-up loads: each persisted field's Commit-time store is paired with a durable write of the same value, and the codecs of the persisted records (BlockContext JSON, GovParams proto) cover every field symmetrically; (R-3) write-back discipline (C01 D-6): an overlay object mutated in place is marked in its overlay on every success path, so the overlay cache — which a restart empties — never holds state the tree lacks; (R-4) nil-ness that block execution tests survives the store: for every slice field of a ledger item that a consensus function compares with nil, the item's decoder hands the wire field on as it is (absent = nil), not a copy. R-2 asks for the installing store of GovCtrler.Commit on every successful path on which parameters were handed over. (R-6) no function on the consensus path enumerates an overlay's read cache (the exported ledger methods that range over a `gotItems` map, found by what they do): the cache holds what this process has read since it started, so the set of items such a walk visits differs between a restarted node and one that kept running."
 	r.NotCovered = "equality of results after a restart (a two-run comparison); the edge where governance limits change in the very block before the restart; restart inside a block (C08)."
 	x := NewExecCtx(w)
 	r1(w, r, x)
@@ -520,10 +520,114 @@ func checkC07(w *World, r *Report) {
 	if r.importObs(w, func(t *Report) { l6(w, t) }, "L-6", "R-5") == 0 {
 		r.Undecided("R-5", "marks-for-commit", "no insertion into the overlay's updated items found")
 	}
+	r6(w, r, x)
+	r.Floor("R-6", 2, "enumerators of the overlay read cache")
 	r.Floor("R-3", 8, "write-back sites")
 	r.Floor("R-4", 1, "item fields whose nil-ness block execution tests")
 	r.Floor("R-1", 12, "controller fields written during block execution")
 	r.Floor("R-2", 8, "persist/load pairs and codecs")
+}
+
+// r6: the overlays' read cache (`gotItems`) holds whatever this process has read
+// since it started — it survives Commit and a restart empties it. Looking a key up
+// in it is harmless (a miss falls through to the tree); *enumerating* it is not:
+// the set of items a walk visits then depends on the process's age. The
+// enumerators are found by what they do — an exported method of the ledger package
+// that ranges over a `gotItems` map, hands one to a helper that ranges over its
+// parameter, or calls another enumerator — and none may have a caller outside the
+// ledger package on the consensus path.
+func r6(w *World, r *Report, x *ExecCtx) {
+	ranges := func(fn *ssa.Function, v ssa.Value) bool {
+		if v.Referrers() == nil {
+			return false
+		}
+		for _, ref := range *v.Referrers() {
+			if _, ok := ref.(*ssa.Range); ok {
+				return true
+			}
+		}
+		return false
+	}
+	isCacheMap := func(v ssa.Value) bool {
+		_, isMap := v.Type().Underlying().(*types.Map)
+		return isMap && strings.HasSuffix(w.Canon(v), ".gotItems")
+	}
+	enum := map[*ssa.Function]bool{}
+	var cands []*ssa.Function
+	for _, fn := range w.ModuleFuncs() {
+		if fn.Blocks == nil || !inLedgerPkg(w, fn) {
+			continue
+		}
+		if o := fn.Origin(); o != nil {
+			continue // the generic origin stands for its instances
+		}
+		cands = append(cands, fn)
+	}
+	for round := 0; round < 4; round++ {
+		for _, fn := range cands {
+			if enum[fn] {
+				continue
+			}
+			for _, b := range fn.Blocks {
+				for _, in := range b.Instrs {
+					switch t := in.(type) {
+					case *ssa.Range:
+						if isCacheMap(t.X) {
+							enum[fn] = true
+						}
+					case ssa.CallInstruction:
+						cal := t.Common().StaticCallee()
+						if cal == nil {
+							continue
+						}
+						if o := cal.Origin(); o != nil {
+							cal = o
+						}
+						if enum[cal] {
+							enum[fn] = true
+						}
+						for i, a := range t.Common().Args {
+							if isCacheMap(a) && cal.Blocks != nil && i < len(cal.Params) && ranges(cal, cal.Params[i]) {
+								enum[fn] = true
+							}
+						}
+					}
+				}
+			}
+		}
+	}
+	n := 0
+	var names []string
+	byName := map[string]*ssa.Function{}
+	for fn := range enum {
+		if fn.Signature.Recv() == nil || !token.IsExported(fn.Name()) {
+			continue
+		}
+		nm := w.FName(fn)
+		names = append(names, nm)
+		byName[nm] = fn
+	}
+	sort.Strings(names)
+	for _, nm := range names {
+		fn := byName[nm]
+		n++
+		bad := ""
+		callers := w.Callers(fn)
+		if rn := derefNamed(fn.Signature.Recv().Type()); rn != nil {
+			if m := w.Method(pkgLedger, rn.Obj().Name(), fn.Name()); m != nil && m != fn {
+				callers = append(callers, w.Callers(m)...)
+			}
+		}
+		for _, cs := range callers {
+			if cs.Caller != nil && x.inSet[cs.Caller] && x.entry[cs.Caller]&polT != 0 && !inLedgerPkg(w, cs.Caller) {
+				bad = w.FName(cs.Caller) + "@" + site(w, cs.Site)
+			}
+		}
+		r.Check(bad == "", "R-6", "cache-enumerator-unused:"+nm, "this walk over the overlay's read cache (what the process has read since it started) has no caller on the consensus path", "block execution enumerates the overlay's read cache, which a restart empties: the items visited depend on the age of the process: "+bad, fnSite(w, fn))
+	}
+	if n == 0 {
+		r.Undecided("R-6", "cache-enumerators", "no enumerator of the overlay read cache found in the ledger package (IterateGotItems / IterateFinalityGotItems expected)")
+	}
 }
 
 // r4: nil-ness that block execution tests must survive the round trip through the
